@@ -275,6 +275,20 @@ def wellformed(code, entry, obj, text, problems):
                 cls = {"bip32": "BIP32Node", "bip49": "BIP49Node", "bip84": "BIP84Node"}[entry[:5]]
                 if not type(obj).__name__.endswith(cls):
                     problems.append(("bip32:wrong-node-class", "%s parse.%s(%r) -> %s" % (code, entry, text, type(obj).__name__)))
+    elif entry == "sec":
+        # SEC text (bare hex or behind the network's own "xxxSEC:" prefix): the key is the point the bytes encode, in the
+        # form (compressed / uncompressed) they encode it in - that form decides the key's addresses
+        body = text[len(pf["sec"]):] if isinstance(pf["sec"], str) and text.startswith(pf["sec"]) else text
+        try:
+            blob = bytes.fromhex(body)
+        except ValueError:
+            blob = None
+        d = refenc.sec_decode_strict(blob, P, 0, 7) if blob is not None else None
+        if d is not None and obj.secret_exponent() is None:
+            got = (_pair(obj), bool(obj.is_compressed()))
+            if got != ((d[0], d[1]), d[2]):
+                problems.append(("sec:decoded-fields-differ", "%s parse.sec(%r) -> pair %r compressed=%r, the bytes encode %r compressed=%r" % (
+                    code, text, got[0], got[1], (d[0], d[1]), d[2])))
     elif entry in SEGWIT_LEAF:
         ver, ln = SEGWIT_LEAF[entry]
         hrp = pf["hrp"]
@@ -339,6 +353,8 @@ def o_text(case):
         if e in GROUP:
             wellformed(code, e, obj, text, problems)
             accepted_groups.setdefault(GROUP[e], []).append(e)
+        elif e == "sec":
+            wellformed(code, e, obj, text, problems)
         lab = reserialise(code, e, obj, problems)
         if e in LEAVES:
             labels.append(lab)
